@@ -2,12 +2,12 @@
 # offline setup: build the harness against /repo and pre-compute the artefacts that depend on the
 # specification only (model checking results and the emitted transition systems)
 set -e
-cd /verif
+cd "$(dirname "$0")"
 mkdir -p work evidence
 (cd harness && cargo build --offline --features hooks 2>&1 | tail -3)
 python3 - <<'PY'
-import sys
-sys.path.insert(0, '/verif')
+import sys, os
+sys.path.insert(0, os.getcwd())
 from vlib import *
 import groups as G
 for inst, (mod, cfg) in G.LTS_INSTANCES.items():
